@@ -7,6 +7,7 @@ import (
 	"os"
 	"runtime"
 	"strings"
+	"sync"
 	"time"
 
 	"verifharness/fakemc"
@@ -31,6 +32,29 @@ type dCase struct {
 	// L1: "" (std handler) or "chunked": per-connection handler kind of the L1 tier; chunked runs
 	// are judged on resource release only (there is no byte-level model of that stack)
 	L1 string `json:"l1,omitempty"`
+	// Via: "" = the server loop is started directly on the connection; "listen" = the connection
+	// goes through rend's accept loop (server.ListenAndServe: handler construction, protocol
+	// detection by the first byte); "listen-overlap" = in addition a second client connects after
+	// this one was accepted and before it sends its first byte, stays idle, must still be served
+	// after this one is gone, and is closed at the end
+	Via string `json:"via,omitempty"`
+}
+
+var (
+	listenMu  sync.Mutex
+	listeners = map[string]*stack.Listener{}
+)
+
+func listenerFor(cfg stack.Config) *stack.Listener {
+	listenMu.Lock()
+	defer listenMu.Unlock()
+	k := fmt.Sprintf("%s/%v/%v/%s", cfg.Orca, cfg.Locked, cfg.MultiRd, cfg.L1)
+	if l, ok := listeners[k]; ok {
+		return l
+	}
+	l := stack.Listen(cfg)
+	listeners[k] = l
+	return l
 }
 
 type halfCloser interface{ CloseWrite() error }
@@ -56,6 +80,15 @@ func runDisconnect(c dCase) (sent, out []byte, l1, l2 string, problems []string)
 		c.Cut = len(stream)
 	}
 	sent = stream[:c.Cut]
+	if c.Via != "" {
+		// the accept loop itself is a goroutine that stays: start it before taking the base line
+		lk := "std"
+		if c.L1 != "" {
+			lk = c.L1
+		}
+		listenerFor(stack.Config{Orca: c.Deploy, Locked: c.Locked, MultiRd: true, L1: lk, Proto: c.Proto})
+		time.Sleep(time.Millisecond)
+	}
 	g0 := runtime.NumGoroutine()
 	rg0 := rendGoroutines()
 	base1, base2 := b.L1.OpenConns(), b.L2.OpenConns()
@@ -63,7 +96,25 @@ func runDisconnect(c dCase) (sent, out []byte, l1, l2 string, problems []string)
 	if c.L1 != "" {
 		l1kind = c.L1
 	}
-	cn := stack.Dial(b, stack.Config{Orca: c.Deploy, Locked: c.Locked, MultiRd: true, L1: l1kind, Proto: c.Proto})
+	cfg := stack.Config{Orca: c.Deploy, Locked: c.Locked, MultiRd: true, L1: l1kind, Proto: c.Proto}
+	var cn, other *stack.Conn
+	if c.Via == "" {
+		cn = stack.Dial(b, cfg)
+	} else {
+		ln := listenerFor(cfg)
+		ln.SetBackends(b)
+		var err error
+		if cn, err = ln.Dial(c.Proto); err != nil {
+			problems = append(problems, err.Error())
+			return
+		}
+		if c.Via == "listen-overlap" {
+			if other, err = ln.Dial(c.Proto); err != nil {
+				problems = append(problems, err.Error())
+				return
+			}
+		}
+	}
 	raw := cn.Raw()
 	raw.Write(sent)
 	if c.Full {
@@ -90,6 +141,24 @@ func runDisconnect(c dCase) (sent, out []byte, l1, l2 string, problems []string)
 		problems = append(problems, "the server loop serving the connection did not end")
 	}
 	raw.Close()
+	if other != nil {
+		// the connection that was accepted later and has been idle so far is unaffected
+		q := stack.Req{Kind: "touch", Key: []byte("zz-other"), TTL: 0, Opaque: 6}
+		enc := q.EncodeBin()
+		if c.Proto == "text" {
+			q.Opaque = 0
+			enc = q.EncodeText()
+		}
+		if _, closed, err := other.Exchange(enc, 5*time.Second); err != nil || closed {
+			problems = append(problems, "a second connection, accepted before this one sent its first byte, could not be served after this one disconnected")
+		}
+		other.Close()
+		select {
+		case <-other.Done:
+		case <-time.After(10 * time.Second):
+			problems = append(problems, "the server did not close the second connection after its client closed it")
+		}
+	}
 	// backend connections released, goroutines gone
 	ok := false
 	for i := 0; i < 200; i++ {
@@ -260,6 +329,15 @@ func c15(e *env) {
 						}
 					}
 				}
+				// through the real accept loop: alone and with a second client connecting in between
+				for _, c := range fcfs {
+					for cut := 0; cut <= n; cut++ {
+						if thorough || bounds[cut] || cut%6 == 0 {
+							cases = append(cases, dCase{Deploy: c.deploy, Locked: c.locked, Proto: proto, Reqs: ss, Cut: cut, Via: "listen"},
+								dCase{Deploy: c.deploy, Locked: c.locked, Proto: proto, Reqs: ss, Cut: cut, Via: "listen-overlap"})
+						}
+					}
+				}
 				for ci, c := range cfs {
 					for cut := 0; cut <= n; cut++ {
 						if !thorough && ci > 0 && cut%3 != r.Intn(3) {
@@ -271,9 +349,16 @@ func c15(e *env) {
 			}
 		}
 	}
+	nfail := 0
 	for _, c := range cases {
+		if nfail >= 6 {
+			// every failing case waits for its timeouts: enough counterexamples, stop here
+			w.Count("cases-skipped-after-6-failures")
+			continue
+		}
 		sent, out, l1, l2, problems := runDisconnect(c)
 		if len(problems) > 0 {
+			nfail++
 			w.Fail(rig.GoFailure{Kind: "counterexample", What: "client disconnect not cleaned up: " + problems[0], Input: c, Detail: fmt.Sprint(problems)})
 		}
 		if c.L1 == "chunked" {
@@ -295,6 +380,9 @@ func c15(e *env) {
 		}
 		w.Count("proto=" + c.Proto)
 		w.Count(fmt.Sprintf("config=%s/locked=%v", c.Deploy, c.Locked))
+		if c.Via != "" {
+			w.Count("via=" + c.Via)
+		}
 		tags := []string{}
 		if c.Locked && c.Proto == "text" {
 			tags = caseTags(fsCase{Locked: true, Proto: "text", Steps: stepsOf(c.Reqs)})
@@ -303,7 +391,7 @@ func c15(e *env) {
 			gal.Bytes(sent), gal.Bytes(out), l1, l2), Nontrivial: c.Cut > 0 && len(sent) > 0, Tags: tags})
 	}
 	w.Res.Exhaustive = true
-	w.Res.Rule = "representative request streams (every command, pipelines, quiet batches, quit in the middle, multi-line values; text and binary) cut at every byte offset (quick: all offsets for one configuration, a third for the others; thorough: all offsets x 6 configurations): the client sends the prefix, half-closes and reads until the server closes; observed: bytes received, server loop ended, backend connections and goroutines back to base, a fresh connection can touch the same keys; received bytes and backend contents are compared with the byte-level connection model; in addition full closes (client stops reading too, reply writes fail) at request boundaries +-1 and every 5th offset (thorough: every offset), judged on resource release only (counted under full-close, not among the cases); the same half and full closes with the chunked handler as L1 (resource release only, counted under chunked-L1); non-trivial = non-empty prefix"
+	w.Res.Rule = "representative request streams (every command, pipelines, quiet batches, quit in the middle, multi-line values; text and binary) cut at every byte offset (quick: all offsets for one configuration, a third for the others; thorough: all offsets x 6 configurations): the client sends the prefix, half-closes and reads until the server closes; observed: bytes received, server loop ended, backend connections and goroutines back to base, a fresh connection can touch the same keys; received bytes and backend contents are compared with the byte-level connection model; in addition full closes (client stops reading too, reply writes fail) at request boundaries +-1 and every 5th offset (thorough: every offset), judged on resource release only (counted under full-close, not among the cases); the same streams through rend's accept loop (server.ListenAndServe), alone and with a second client that connects before the first byte is sent, stays idle and must be served afterwards (counted under via=); the same half and full closes with the chunked handler as L1 (resource release only, counted under chunked-L1); non-trivial = non-empty prefix"
 	if err := w.Finish([]string{"base.Bytes", "base.Harness", "spec.MapSpec", "orca.Types", "proto.Resp", "checks.Check01", "checks.Check15"}, "case15", "check15"); err != nil {
 		rig.Die("%v", err)
 	}
